@@ -686,7 +686,7 @@ inductive TokShape (startOK : Prop) (rest : List Char) : Token → List Char →
   | unquoteSplicing : TokShape startOK rest .unquoteSplicing [',', '@']
   | word (t : Token) (used : List Char) : used ≠ [] → (t = .period ∨ Syn.isAtomTok t = true) →
       (startOK → NoSpecial used) → startsDelim rest = true → TokShape startOK rest t used
-  | bool (b : Bool) (x : Char) : x ∉ specials → (startsDelim rest = true ∨ startsSharp rest = true) →
+  | bool (b : Bool) (x : Char) : (x = 't' ∨ x = 'f') → (startsDelim rest = true ∨ startsSharp rest = true) →
       TokShape startOK rest (.prim (.bool b)) ['#', x]
   | char (t : Token) (first : Char) (run : List Char) : sharpTok t = true → NoSpecial run →
       (startsDelim rest = true ∨ startsSharp rest = true) →
@@ -746,8 +746,7 @@ theorem token_inv {cs p t rest p'} (h : token cs p = .ok (some (t, rest, p'))) :
           simp only [pure, Except.pure, Except.ok.injEq, Option.some.injEq, Prod.mk.injEq] at h
           obtain ⟨rfl, rfl, rfl⟩ := h
           refine ⟨_, ⟨rfl, rfl⟩, .bool _ cn ?_ hd⟩
-          simp only [Bool.or_eq_true, decide_eq_true_eq] at hc
-          rcases hc with rfl | rfl <;> decide
+          simpa using hc
         split at h
         · rename_i hc; subst hc
           cases cs2 with
